@@ -21,6 +21,10 @@
 (*   errs    read-only variables, invalid names, no operand, invalid       *)
 (*           delimiters; {a, space, newline}                               *)
 (*   noin    descriptor 0 closed                                           *)
+(*   pipe    default delimiter; {a, space, newline, two-, three- and       *)
+(*           four-byte character}: the family of the stage run by C14      *)
+(*           (checks.g05.run_stage), fed through a pipe in chunks of 1, 2  *)
+(*           and 3 bytes so that short reads split the characters          *)
 (* Laws checks the theorems of ReadBuiltin.tla on every state.             *)
 (***************************************************************************)
 EXTENDS ReadBuiltin, Json, IOUtils
@@ -38,7 +42,8 @@ Alpha(f) ==
   CASE f = "core"  -> {"a", " ", ":", BSL, NL}
     [] f = "wide"  -> {"a", "b", " ", ":", BSL, NL, "\t", "W2"}
     [] f = "delim" -> {"a", ":", BSL, NL, NUL, " "}
-    [] f = "bytes" -> {"a", NUL, BAD, CUT, "W3", NL, BSL}
+    [] f = "bytes" -> {"a", NUL, BAD, CUT, "W3", "W4", NL, BSL}
+    [] f = "pipe"  -> {"a", " ", NL, "W2", "W3", "W4"}
     [] f = "long"  -> {"a", " ", NL}
     [] f = "errs"  -> {"a", " ", NL}
     [] f = "noin"  -> {}
@@ -47,6 +52,7 @@ MaxLen(f) ==
     [] f = "wide"  -> 3 + Deep
     [] f = "delim" -> 3 + Deep
     [] f = "bytes" -> 2 + Deep
+    [] f = "pipe"  -> 3 + Deep
     [] f = "long"  -> 6 + Deep
     [] f = "errs"  -> 3
     [] f = "noin"  -> 0
@@ -57,8 +63,9 @@ Delims(f) ==
     [] OTHER -> {NoD}
 (* the fan: << raw, index into IfsTable, kinds of the variable operands >> *)
 Kinds(f) == IF f \in {"errs", "noin"} THEN << <<>>, <<"b">>, <<"o", "b">>, <<"r">>, <<"o", "r">>, <<"r", "o">>, <<"o", "r", "o">>, <<"o", "o">> >>
+            ELSE IF f = "pipe" THEN << <<"o">>, <<"o", "o">> >>
             ELSE << <<"o">>, <<"o", "o">>, <<"o", "o", "o">> >>
-IfsIdx(f) == IF f \in {"errs", "bytes", "noin"} THEN <<1, 5>> ELSE IF f = "long" THEN <<1, 2, 5>> ELSE <<1, 2, 3, 4, 5, 6>>
+IfsIdx(f) == IF f \in {"errs", "bytes", "noin"} THEN <<1, 5>> ELSE IF f = "pipe" THEN <<1, 2>> ELSE IF f = "long" THEN <<1, 2, 5>> ELSE <<1, 2, 3, 4, 5, 6>>
 
 Init == \E f \in Fams : \E d \in Delims(f) : st = [fam |-> f, d |-> d, inp |-> <<>>]
 Next == /\ Len(st.inp) < MaxLen(st.fam)
